@@ -267,6 +267,27 @@ func c18Template(c *fw.Ctx, seq []int) {
 	if t.DefaultVariables()["A"] != "keep" {
 		c.Violation("template-auto-variables-disturb-existing", "template %q: pre-existing default A was changed to %q", text, t.DefaultVariables()["A"])
 	}
+	// pre-existing entries with EMPTY values, and the same template set again on the same instance
+	// in another letter case: still exactly one entry per name
+	t2 := mustache.NewMustacheTemplate()
+	t2.SetDefaultVariables(map[string]string{"A": "", "NAME": ""})
+	for round, tx := range []string{text, strings.ToUpper(text), text} {
+		if strings.Contains(tx, "{{#IF ") || strings.Contains(tx, "{{#UNLESS ") || strings.Contains(tx, "{{/IF}}") || strings.Contains(tx, "{{/UNLESS}}") {
+			break // the section words are only recognised in lower case
+		}
+		if err := t2.SetTemplate(tx); err != nil {
+			break
+		}
+		cnt := map[string]int{}
+		for k := range t2.DefaultVariables() {
+			cnt[strings.ToUpper(k)]++
+		}
+		for k, n := range cnt {
+			if n != 1 {
+				c.Violation("template-auto-variables-entry-count", "template %q (round %d on one instance, defaults started as {A:\"\",NAME:\"\"}): %d default entries for %q; map %v", tx, round, n, k, t2.DefaultVariables())
+			}
+		}
+	}
 }
 
 // ---- collections against an ordered-list model
@@ -483,6 +504,50 @@ func init() {
 						}
 						return fmt.Sprintf("template %q", s)
 					}},
+				{Name: "instance-independence", N: 1, Run: func(c *fw.Ctx, i int64) {
+					c.Eval(1)
+					c.Nontrivial()
+					mkf := func(name string) functions.IFunction {
+						return functions.NewDelegatedFunction(name, func([]*variants.Variant, variants.IVariantOperations) (*variants.Variant, error) {
+							return variants.VariantFromString(name), nil
+						})
+					}
+					f1, f2 := functions.NewDefaultFunctionCollection(), functions.NewDefaultFunctionCollection()
+					n0 := f2.Length()
+					f1.Add(mkf("OnlyInFirst"))
+					f2.Add(mkf("OnlyInSecond"))
+					f1.RemoveByName("Min")
+					f1.Remove(0)
+					f3 := functions.NewDefaultFunctionCollection()
+					if f2.FindByName("OnlyInFirst") != nil || f1.FindByName("OnlyInSecond") != nil || f2.FindByName("Min") == nil || f3.FindByName("Min") == nil || f2.FindByName("Ticks") == nil ||
+						f2.Length() != n0+1 || f3.Length() != n0 || f3.FindByName("OnlyInFirst") != nil || f1.FindByName("OnlyInFirst") == nil || f2.FindByName("OnlyInSecond") == nil {
+						c.Violation("collections-share-state", "two default function collections are not independent: after Add/RemoveByName/Remove on the first, the second or a new one changed (lengths %d %d %d)", f1.Length(), f2.Length(), f3.Length())
+					}
+					c1, c2 := calculator.NewExpressionCalculator(), calculator.NewExpressionCalculator()
+					c1.DefaultFunctions().Add(mkf("Own"))
+					c2.DefaultFunctions().Add(mkf("Other"))
+					c1.DefaultVariables().Add(variables.NewVariable("v", variants.VariantFromInteger(1)))
+					for _, cc := range []*calculator.ExpressionCalculator{c1, c2} {
+						cc.SetAutoVariables(false)
+					}
+					ok := true
+					if err := c1.SetExpression("Own()"); err != nil {
+						ok = false
+					} else if r, err := c1.Evaluate(); err != nil || r == nil || r.Type() != variants.String || r.AsString() != "Own" {
+						ok = false
+					}
+					if c2.DefaultFunctions().FindByName("Own") != nil || c1.DefaultFunctions().FindByName("Other") != nil || c2.DefaultVariables().FindByName("v") != nil {
+						ok = false
+					}
+					if !ok {
+						c.Violation("calculators-share-state", "two calculators are not independent: a function or variable added to one is visible in, or overwritten by, the other")
+					}
+					v1, v2 := variables.NewVariableCollection(), variables.NewVariableCollection()
+					v1.Add(variables.NewVariable("x", nil))
+					if v2.Length() != 0 || v2.FindByName("x") != nil {
+						c.Violation("collections-share-state", "two variable collections are not independent")
+					}
+				}, Repr: func(i int64) string { return "two collections / calculators side by side" }},
 				{Name: "variable-collection", N: countStrings(k, depth), Run: func(c *fw.Ctx, i int64) { c18Collections(c, seqByIndex(k, i), false) },
 					Repr: func(i int64) string { return "VariableCollection [" + c18Hist(seqByIndex(k, i), c18Ops) + "]" }},
 				{Name: "pumped-collection-histories", N: (countStrings(k, 2) - 1) * 5 * 2, Run: func(c *fw.Ctx, i int64) {
